@@ -299,7 +299,8 @@ class ApproxZipfDistribution
       -> double
   {
     if (pow_ == 0.0) return (1 + log(n) + log(n + 1)) * 0.5;          // NOLINT
-    return (pow(n + 1, pow_) + pow(n, pow_) - 2) / (2 * pow_) + 0.5;  // NOLINT
+    // (x^p - 1) is computed as expm1(p * log(x)) to avoid cancellation when p is close to zero
+    return (expm1(pow_ * log(n + 1)) + expm1(pow_ * log(n))) / (2 * pow_) + 0.5;  // NOLINT
   }
 
   /*############################################################################
